@@ -755,3 +755,43 @@ def build_synth(specs):
             os.replace(tmp, p)
         out[name] = p
     return out
+
+
+def gen_layout_adjacent(rng, size):
+    """Adjacent regions (each starts where the previous one ends) with many tiny ones (1–8 bytes) next to larger ones:
+    what a range function (hash.*, math.*) streams over when the range crosses region boundaries."""
+    base = rng.choice([0, 0, 0x1000, 0x400000])
+    regs, off, addr = [], 0, base
+    n = rng.range(3, 9)
+    for i in range(n):
+        if off >= size:
+            break
+        ln = rng.choice([1, 1, 2, 2, 3, 4, 5, 5, 6, 7, 8, 8, 13, 30, 64])
+        if i == n - 1:
+            ln = size - off
+        ln = min(ln, size - off)
+        regs.append({"start": addr, "off": off, "len": ln, "fail": False})
+        off += ln
+        addr += ln
+    if off < size:
+        regs.append({"start": addr, "off": off, "len": size - off, "fail": False})
+    return regs
+
+
+def stream_rules(rng, layout, first_tag):
+    """conditions calling the streaming math / hash functions over ranges that cross several regions of `layout`"""
+    fns = ["math.monte_carlo_pi(%d, %d) >= 0.0", "math.monte_carlo_pi(%d, %d) < 100.0", "math.serial_correlation(%d, %d) <= 1.0",
+           "math.mean(%d, %d) >= 0.0", "math.entropy(%d, %d) >= 0.0", "math.deviation(%d, %d, 127.5) >= 0.0",
+           'hash.md5(%d, %d) != ""', 'hash.sha1(%d, %d) != ""', 'hash.sha256(%d, %d) != ""', "hash.crc32(%d, %d) >= 0",
+           "hash.checksum32(%d, %d) >= 0", "math.mode(%d, %d) >= 0", "math.count(0, %d, %d) >= 0",
+           "math.percentage(0, %d, %d) >= 0.0"]
+    rules = []
+    for k in range(rng.range(4, 7)):
+        i = rng.below(len(layout))
+        j = min(len(layout) - 1, i + rng.range(1, 5))
+        start = layout[i]["start"] + rng.below(max(1, min(layout[i]["len"], 8)))
+        end = layout[j]["start"] + layout[j]["len"] - (rng.below(3) if layout[j]["len"] > 3 else 0)
+        ln = max(1, end - start) if not rng.chance(1, 8) else rng.choice([1, 5, 6, 7, 12, 1 << 40])
+        f = fns[0] if k == 0 else rng.choice(fns)
+        rules.append({"tag": "%s%d" % (first_tag, k), "imports": [f.split(".")[0]], "cond": f % (start, ln)})
+    return rules
